@@ -14,6 +14,7 @@ RULE = ("value trees from vf/values.py (NULL, booleans, i64 incl. +-2^53+-1 and 
         "booleans, nulls, numbers as exact rationals. Unrepresentable values (JSON: non-finite float, constraint; "
         "TOML: NULL anywhere, non-table top level, constraint; YAML: constraint) must be errors. distinct = distinct "
         "(format, value); non-trivial = a container or a string/number needing care (non-ASCII, hostile pool, |n|>2^53).")
+RULE += (" " + 'Also: a few values far larger than any buffer per run (strings of 4 KiB .. 70,000 characters with characters that need escaping, lists of 1,000 / 5,000 items, tuples of 300 / 1,500 fields).')
 
 FORMATS = ["json", "yaml", "toml", "yamlmulti"]
 
